@@ -7,6 +7,7 @@ use crate::framework::{Info, Scenario, Tier};
 use crate::pipe::{self, Delivered, Receiver};
 use crate::rng::Rng;
 use crate::wire::{self, Pair};
+use opcua::crypto::KeySize;
 use opcua::client::transport::buffer::SendBuffer;
 use opcua::core::comms::chunker::Chunker;
 use opcua::core::comms::message_chunk::{MessageChunk, MessageChunkType, MessageIsFinalType};
@@ -25,7 +26,7 @@ fn valid_bits(p: SecurityPolicy) -> Vec<u32> {
     match p {
         SecurityPolicy::None => vec![2048],
         SecurityPolicy::Basic128Rsa15 | SecurityPolicy::Basic256 => vec![1024, 2048],
-        _ => vec![2048, 4096],
+        _ => vec![2048, 3072, 4096],
     }
 }
 
@@ -39,7 +40,7 @@ fn security_grid(with_4096: bool) -> Vec<(SecurityPolicy, MessageSecurityMode, u
         }
         for m in [MessageSecurityMode::Sign, MessageSecurityMode::SignAndEncrypt] {
             for b in valid_bits(*p) {
-                if b == 4096 && !with_4096 {
+                if b > 2048 && !with_4096 {
                     continue;
                 }
                 v.push((*p, m, b));
@@ -343,7 +344,9 @@ impl Scenario for Wire {
             }
             _ => {
                 let mut rng = Rng::new(crate::framework::run_seed(seed, "C09", run));
-                let grid = security_grid(tier == Tier::Thorough);
+                // every key size in both tiers: some length checks only differ for 3072-bit keys
+                let _ = tier;
+                let grid = security_grid(true);
                 let g = *rng.pick(&grid);
                 let kind = *rng.pick(&["msg", "msg", "opn"]);
                 let dir = *rng.pick(&["c2s", "s2c"]);
@@ -728,7 +731,7 @@ fn c09_mutation(rng: &mut Rng, valid_first: &[u8], asym: bool) -> Value {
         1 => json!({"m": "flip", "off": rng.below(len as u64), "mask": 1 + rng.below(255)}),
         2 => json!({"m": "truncate_fix", "off": rng.urange(12, len.max(13) - 1)}),
         3 => json!({"m": "truncate_fix", "off": rng.urange(12, 64.min(len.max(13) - 1))}),
-        4 => json!({"m": "extend_fix", "n": rng.urange(1, 40)}),
+        4 => json!({"m": "extend_fix", "n": if rng.chance(0.6) { rng.urange(1, 40) } else { *rng.pick(&[64usize, 128, 256, 384, 512]) }}),
         5 => json!({"m": "patch", "at": 4, "bytes": wire::hex(&(rng.below(70000) as u32).to_le_bytes())}),
         6 => {
             let n = rng.urange(1, 8);
@@ -737,6 +740,7 @@ fn c09_mutation(rng: &mut Rng, valid_first: &[u8], asym: bool) -> Value {
         7 => json!({"m": "patch", "at": rng.urange(12, 40.min(len - 1)), "bytes": "ffffffff"}), // a length field becomes -1
         8 => json!({"m": "patch", "at": rng.urange(12, 40.min(len - 1)), "bytes": "00000000"}), // ... or 0
         9 => json!({"m": "patch", "at": rng.urange(12, 120.min(len - 1)), "bytes": wire::hex(&(rng.below(400) as u32).to_le_bytes())}),
+        10 if asym && rng.chance(0.5) => json!({"m": "repad", "val": *rng.pick(&[0u64, 1, 2, 15, 16, 100, 200, 255, 256, 300, 1000, 1231, 2000, 4000, 65535]), "two": rng.chance(0.3)}),
         10 => json!({"m": "swap_type", "to": *rng.pick(&["MSG", "OPN", "CLO"])}),
         _ => json!({"m": "random", "n": rng.urange(8, 300), "seed": rng.next_u64() >> 16, "type": *rng.pick(&["MSGF", "OPNF", "CLOF", "MSGC", "MSGA"])}),
     };
@@ -749,6 +753,15 @@ fn mutate_c09(valid: &Valid, m: &Value, plan: &Value) -> Vec<u8> {
     let kind = m["m"].as_str().unwrap_or("");
     let mut stream: Vec<u8> = valid.chunks[0].clone();
     match kind {
+        // a peer that owns valid keys but writes a bogus padding length: the asymmetric chunk is
+        // decrypted (the harness knows the receiver's key), the padding length bytes are replaced,
+        // and the chunk is signed and encrypted again with the real primitives
+        "repad" => {
+            match repad_opn(&stream, plan, m["val"].as_u64().unwrap_or(0) as u16, m["two"].as_bool().unwrap_or(false)) {
+                Some(s) => s,
+                None => stream,
+            }
+        }
         "patch" => {
             let at = (m["at"].as_u64().unwrap_or(0) as usize).min(stream.len().saturating_sub(1));
             let bytes = wire::unhex(m["bytes"].as_str().unwrap_or("00"));
@@ -781,6 +794,55 @@ fn mutate_c09(valid: &Valid, m: &Value, plan: &Value) -> Vec<u8> {
         }
         _ => mutate(valid, m, plan).0,
     }
+}
+
+fn repad_opn(valid_chunk: &[u8], plan: &Value, val: u16, two_bytes: bool) -> Option<Vec<u8>> {
+    if plan["kind"] != "opn" {
+        return None;
+    }
+    let policy = wire::policy_by_name(plan["policy"].as_str().unwrap_or("None"));
+    if policy == SecurityPolicy::None {
+        return None;
+    }
+    let bits = plan["bits"].as_u64().unwrap_or(2048) as u32;
+    let dir = plan["dir"].as_str().unwrap_or("c2s");
+    let (sender, receiver) = if dir == "c2s" { (wire::identity(bits, "a"), wire::identity(bits, "b")) } else { (wire::identity(bits, "b"), wire::identity(bits, "a")) };
+    // where does the encrypted part start? (policy != None: header 12, then the asymmetric security header)
+    let chan = wire::bare_channel(opcua::core::comms::secure_channel::Role::Server, DecodingOptions::default());
+    let chunk = MessageChunk { data: valid_chunk.to_vec() };
+    let info = chunk.chunk_info(&chan).ok()?;
+    let start = info.sequence_header_offset;
+    let cipher = &valid_chunk[start..];
+    let mut plain = vec![0u8; cipher.len() + 16];
+    let n = policy.asymmetric_decrypt(&receiver.key(), cipher, &mut plain).ok()?;
+    plain.truncate(n);
+    let sig = sender.key().size();
+    if plain.len() < sig + 4 {
+        return None;
+    }
+    let pad_at = plain.len() - sig - 1;
+    if two_bytes || sig > 256 {
+        // keys above 2048 bits use an extra padding size byte
+        plain[pad_at] = (val >> 8) as u8;
+        plain[pad_at - 1] = (val & 0xff) as u8;
+    } else {
+        plain[pad_at] = (val & 0xff) as u8;
+    }
+    // sign header + plaintext up to the signature, with the message size the cipher text will have
+    let mut signed = valid_chunk[..start].to_vec();
+    signed.extend_from_slice(&plain[..plain.len() - sig]);
+    let mut signature = vec![0u8; sig];
+    policy.asymmetric_sign(&sender.key(), &signed, &mut signature).ok()?;
+    let body_len = plain.len() - sig;
+    plain[body_len..].copy_from_slice(&signature);
+    let mut out = valid_chunk[..start].to_vec();
+    let mut enc = vec![0u8; cipher.len() + 1024];
+    let m = policy.asymmetric_encrypt(&receiver.cert.public_key().ok()?, &plain, &mut enc).ok()?;
+    out.extend_from_slice(&enc[..m]);
+    if out.len() != valid_chunk.len() {
+        return None;
+    }
+    Some(out)
 }
 
 fn exec_c09(plan: &Value, ctx: &mut Ctx) {
